@@ -1,4 +1,6 @@
 import CifModel.Lemmas.AnalyzeQuote
+import CifModel.Lemmas.AnalyzeReadback
+import CifModel.Props.C01
 /-
   Property C18 — string analysis and quoting rules agree with what the parser reads back.
 
@@ -264,18 +266,105 @@ theorem C18_try_quoted (v : V) (q : Bool) :
     setQuoted true v q = setQuoted false v q ∨ ((∃ c, setQuoted false v q = .error c) ∧ setQuoted true v q = .ok v) := by
   cases v <;> simp [setQuoted] <;> (repeat' split) <;> simp_all
 
-/-- C18, read-back — FULL statement, parameterised by the lexer model of property C01 (`nextValue`: the first value token of a
-    CIF 2.0 text, `Model/Lexer.lean`, not part of this group): the string presented with the recommended delimiter after
-    whitespace, followed by whitespace, is read back as exactly that string.  Text-field recommendations are covered by the
-    writer's text protocol (C02).  Until the lexer model is merged this is covered at the implementation level: the `analyze`
-    correspondence family feeds every recommended presentation to the real parser (see tools/gen/analyze.py). -/
-def C18_delim_reads_back_full (nextValue : Str → Option (Str × Bool)) : Prop :=
-  ∀ (s : Str) (unq tri : Bool) (limit : Nat) (pad : Nat), 0 ∉ s → (∀ c ∈ s, c ≠ 13) →
-    recommend s unq tri limit ≠ .text →
-    nextValue (List.replicate (pad + 1) 32 ++ (recommend s unq tri limit).units ++ s ++ (recommend s unq tri limit).units ++ [10])
-      = some (s, recommend s unq tri limit != .none)
+/-- C18 ⇒ lexical grammar: for a string of CIF 2.0 characters, the delimiter `cif_analyze_string` recommends (other than the text
+    field) denotes a presentation that the CIF 2.0 lexical grammar (`Spec/Lexical.lean`, written from the specification) admits
+    for this string, and that may start at any column. -/
+theorem C18_delim_lexically_admissible (s : Str) (unq tri : Bool) (limit : Nat)
+    (hchars : Spec.Lexical.okUnits .cif2 none s = true) (hnt : recommend s unq tri limit ≠ .text) :
+    Spec.Lexical.admissible .cif2 (presOf (recommend s unq tri limit)) s = true ∧
+    ∀ col, Spec.Lexical.startOk (presOf (recommend s unq tri limit)) s col = true := by
+  have hu := okUnits_units .cif2 s none hchars
+  have h0 : 0 ∉ s := fun h => (hu 0 h).1 rfl
+  obtain ⟨A1, A2, A3, A4, A5⟩ := C18_delim_admissible s unq tri limit h0
+  cases hd : recommend s unq tri limit with
+  | text => exact absurd hd hnt
+  | none =>
+    obtain ⟨hnd, hnr, hne, hsemi, _, _, hn, _⟩ := A1 hd
+    have hterm := counters_one_line s hn
+    cases s with
+    | nil => exact absurd rfl hne
+    | cons c r =>
+      have hlead : ¬ reservedLead c := fun h => hnr (Or.inl ⟨c, rfl, h⟩)
+      have hword : Spec.Lexical.isReservedWord (c :: r) = false := by
+        cases h : Spec.Lexical.isReservedWord (c :: r) with
+        | false => rfl
+        | true => exact absurd (Or.inr ((reservedWord_iff _).1 h)) hnr
+      constructor
+      · simp only [presOf, Spec.Lexical.admissible, Spec.Lexical.bareOk, hchars, hword, Bool.true_and, Bool.not_false,
+          Bool.and_true, Bool.and_eq_true, List.all_eq_true, Bool.not_eq_true', Bool.or_eq_false_iff, beq_eq_false_iff_ne]
+        refine ⟨⟨?_, ?_⟩, ?_⟩
+        · intro x hx
+          have a := hnd x hx; have b := hterm x hx
+          simp [Spec.Lexical.isWs, Spec.Lexical.isBlank, Spec.Lexical.isEol, a.1, a.2.1, b.1]
+        · simp only [reservedLead] at hlead
+          refine ⟨⟨⟨⟨?_, ?_⟩, ?_⟩, ?_⟩, ?_⟩ <;> (intro e; apply hlead; simp [e])
+        · intro x hx
+          have a := hnd x hx
+          exact ⟨⟨⟨a.2.2.1, a.2.2.2.1⟩, a.2.2.2.2.1⟩, a.2.2.2.2.2⟩
+      · intro col
+        have : (c :: r).head? ≠ some 59 := hsemi
+        simp only [presOf, Spec.Lexical.startOk, Spec.Lexical.semiOk]
+        simp at this
+        simp [this]
+  | apos =>
+    obtain ⟨hq, hn, _⟩ := A2 hd
+    have hterm := counters_one_line s hn
+    refine ⟨?_, fun _ => rfl⟩
+    simp only [presOf, Spec.Lexical.admissible, Spec.Lexical.quotedOk, hchars, Bool.true_and, Bool.and_eq_true, List.all_eq_true]
+    exact ⟨fun x hx => by simp [Spec.Lexical.isEol, (hterm x hx).1], fun x hx => by
+      have hx' : x ≠ 39 := fun e => hq (by rw [← e]; exact hx)
+      simpa using hx'⟩
+  | quot =>
+    obtain ⟨hq, hn, _⟩ := A3 hd
+    have hterm := counters_one_line s hn
+    refine ⟨?_, fun _ => rfl⟩
+    simp only [presOf, Spec.Lexical.admissible, Spec.Lexical.quotedOk, hchars, Bool.true_and, Bool.and_eq_true, List.all_eq_true]
+    exact ⟨fun x hx => by simp [Spec.Lexical.isEol, (hterm x hx).1], fun x hx => by
+      have hx' : x ≠ 34 := fun e => hq (by rw [← e]; exact hx)
+      simpa using hx'⟩
+  | apos3 =>
+    obtain ⟨ht, _⟩ := A4 hd
+    refine ⟨?_, fun _ => rfl⟩
+    simp only [Model.tripleOk, Bool.and_eq_true, bne_iff_ne, ne_eq, Bool.not_eq_true'] at ht
+    simp only [presOf, Spec.Lexical.admissible, Spec.Lexical.tripleOk, hchars, Bool.and_true, Bool.true_and]
+    exact tripleBody_of 39 s 0 (by omega) (fun _ => rfl) ht.1 (by simpa using ht.2)
+  | quot3 =>
+    obtain ⟨ht, _⟩ := A5 hd
+    refine ⟨?_, fun _ => rfl⟩
+    simp only [Model.tripleOk, Bool.and_eq_true, bne_iff_ne, ne_eq, Bool.not_eq_true'] at ht
+    simp only [presOf, Spec.Lexical.admissible, Spec.Lexical.tripleOk, hchars, Bool.and_true, Bool.true_and]
+    exact tripleBody_of 34 s 0 (by omega) (fun _ => rfl) ht.1 (by simpa using ht.2)
 
--- non-vacuity ------------------------------------------------------------------------------------------------------------
+/-- **C18, read-back.**  For every string `s` of CIF 2.0 characters, all arguments, whenever the recommended delimiter `δ` is
+    not the text field: the presentation `δ s δ`, behind ANY run of whitespace and comments `w`, from any scanner state, at any
+    position at which no line ending inside it exceeds 2048 characters (`hfitw`, `hfit`), followed by anything that may follow
+    a value, is read by the CIF 2.0 scanner (`next_token`, model of group gD, theorem `C01_lex_value_after_ws`) as ONE value token
+    whose text is exactly `s` — quoted iff `δ` is not empty —, consuming exactly the presentation, reporting nothing, for every
+    error-callback policy. -/
+theorem C18_delim_reads_back (s ctx : Str) (unq tri : Bool) (limit : Nat) (w : List Spec.Lexical.WsAtom) (line col : Nat)
+    (lt : TokType) (pol : Model.Lexer.Policy) (log : List Model.Lexer.Report)
+    (hchars : Spec.Lexical.okUnits .cif2 none s = true) (hnt : recommend s unq tri limit ≠ .text)
+    (hok : ∀ a ∈ w, a.ok .cif2 = true)
+    (hfirst : Model.Lexer.afterWsOf lt = true ∨ ∀ b rest, w ≠ Spec.Lexical.WsAtom.comment b :: rest)
+    (hws : (Model.Lexer.afterWsOf lt || !w.isEmpty) = true)
+    (hfitw : Spec.Lexical.linesFit col (Spec.Lexical.renderWs w) = true)
+    (hfit : Spec.Lexical.linesFit (Spec.Lexical.posAfter line col (Spec.Lexical.renderWs w)).2
+              ((recommend s unq tri limit).units ++ s ++ (recommend s unq tri limit).units) = true)
+    (hctx : Spec.Lexical.followOk .cif2 ctx = true) :
+    ∃ l c, Model.Lexer.nextToken .cif2
+        ⟨Spec.Lexical.renderWs w ++ (((recommend s unq tri limit).units ++ s ++ (recommend s unq tri limit).units) ++ ctx), line, col, lt⟩ pol log
+      = .ok (⟨if recommend s unq tri limit = .none then .value else .qvalue, s, l, c⟩,
+             ⟨ctx, l, c, if recommend s unq tri limit = .none then .value else .qvalue⟩) log := by
+  obtain ⟨hadm, hstart⟩ := C18_delim_lexically_admissible s unq tri limit hchars hnt
+  rw [← render_presOf _ s hnt] at hfit ⊢
+  have hty : (presOf (recommend s unq tri limit)).tokType = if recommend s unq tri limit = .none then .value else .qvalue := by
+    cases hd : recommend s unq tri limit <;> simp [presOf, Spec.Lexical.Presentation.tokType] <;> exact absurd hd hnt
+  refine ⟨(Spec.Lexical.posAfter line col (Spec.Lexical.renderWs w ++ Spec.Lexical.renderValue (presOf (recommend s unq tri limit)) s)).1,
+    (Spec.Lexical.posAfter line col (Spec.Lexical.renderWs w ++ Spec.Lexical.renderValue (presOf (recommend s unq tri limit)) s)).2, ?_⟩
+  rw [← hty]
+  exact C01_lex_value_after_ws .cif2 w (presOf (recommend s unq tri limit)) s ctx line col lt pol log hok hfirst hws hfitw hadm hfit
+    (hstart _) hctx
+
 example : (analyze (a!"ab\r\ncd") true true 2048).lengthFirst = 2 := by decide
 example : splitLines [97, 98, 13, 10, 99, 100, 13, 101, 10] = [[97, 98], [99, 100], [101], []] := by decide
 example : (analyze [97, 98, 13, 10, 99, 100] true true 2048).lengthFirst = 2 ∧ (analyze [97, 98, 13, 10, 99, 100] true true 2048).numLines = 2 := by decide
@@ -290,5 +379,13 @@ example : wsDelimitableAnywhere (a!"abc") := by
 example : isReserved (a!"DaTa_x") = true ∧ isReserved (a!"loop_x") = false ∧ isReserved (a!"stop_") = true := by decide
 example : setQuoted false (.chr true (a!"a b")) false = .error 6 ∧ setQuoted true (.chr true (a!"a[b")) false = .ok (.chr true (a!"a[b")) := by
   constructor <;> rfl
+
+-- read-back: every hypothesis instantiated on a concrete case (`_x 'a b'⏎` behind a data name, and a plain text field)
+example : ∃ l c, Model.Lexer.nextToken .cif2 ⟨[32] ++ (([39] ++ a!"a b" ++ [39]) ++ [10]), 1, 2, .name⟩ Model.Lexer.acceptAll []
+    = .ok (⟨.qvalue, a!"a b", l, c⟩, ⟨[10], l, c, .qvalue⟩) [] :=
+  C18_delim_reads_back (a!"a b") [10] true true 2048 [.blank 32] 1 2 .name Model.Lexer.acceptAll []
+    (by decide) (by decide) (by decide) (Or.inr (by intro b rest h; cases h)) (by decide) (by decide) (by decide) (by decide)
+example : (analyze [97, 10, 98] true false 2048).delimLength = 2 ∧ (analyze [97, 10, 98] true false 2048).containsTextDelim = false ∧
+    (analyze [97, 10, 98] true false 2048).hasReservedStart = false ∧ Spec.Lexical.okUnits .cif2 none [97, 10, 98] = true := by decide
 
 end CifModel
